@@ -1,6 +1,7 @@
 // C02 harness: well-formedness verdict of the REAL parsers, in-process, one Initialize.
 //   stdin lines:  <configs> <hex bytes of the document>
-//       configs = ALL | DTD | comma list of api/scanner/ns  (api: sax sax2 dom ls; scanner: IG WF DG SG; ns: 0 1)
+//       configs = [FRESH:] ALL | DTD | comma list of api/scanner/ns  (api: sax sax2 dom ls; scanner: IG WF DG SG; ns: 0 1)
+//                 FRESH: = create new parser objects for this line (otherwise they are reused from line to line)
 //                 ALL = 4 APIs x 4 scanners x 2;  DTD = 4 APIs x {IG,DG} x 2 (scanners that process a DOCTYPE)
 //   stdout:       one line per input line:  cfg=obs cfg=obs ...
 //       obs = ok | fatal:<first fatal XMLErrs code>[:<domain-if-not-XMLErrs>] | exc:<type>[:<code>]
@@ -241,6 +242,9 @@ int main(int argc, char** argv) {
             std::vector<XMLByte> bytes(v.begin(), v.end());
             std::string out;
             bool bad = false;
+            // "FRESH:<configs>": drop the cached parser objects first, so that this document is the first one
+            // every parser sees (hash sets and pools of a parser keep their size from earlier documents)
+            if (f[0].rfind("FRESH:", 0) == 0) { gConfigs.clear(); f[0] = f[0].substr(6); }
             for (auto& cn : expand(f[0])) {
                 Config* c = getConfig(cn);
                 if (!c) { bad = true; break; }
